@@ -1,13 +1,16 @@
 (* C05 - parse -> write_nodeset -> parse reproduces the graph.
    Full statement: for g = parse_files [] docs in the domain,  parse_files [] (base :: map (write_doc g) (non-base URIs))
    equals g at URI level (namespaces, node rows on the listed columns, reference triples, models).
-   C05_roundtrip_partial: the composition theorem is NOT proved.  Proved are its ingredients, each for all inputs:
-   identifier text round trip (C09), index translation through a document's own namespace table (C03), merging of
-   references declared in several written documents (C02), value round trips (C08, per type), and the shape of the
-   written header.  The composition is decided by the correspondence runs of the parser and writer models and by the
-   literal round trip through the public API (oracle) on every generated graph. *)
+   C05_roundtrip_partial: that single equality of graphs is NOT stated.  Proved, each for all inputs, are the statements it
+   consists of: per written namespace and assembled over the parse of a whole document set - the reference triples with an endpoint
+   in U (sound and complete, read at (URI, identifier) level), the node rows of U column by column (identity, browse name, texts,
+   value, every attribute column), and U's model with its version and required models (the publication dates are replaced by
+   design; a model without Version comes back as "1.0.0": the recorded finding, proved present); plus the ingredients (identifier
+   text, index translation, reference merging, value round trips, header shape, reader of the written text).  Not covered by a
+   theorem: the base file's own content (it is not written at all, so it is parsed as before) and the equality of the namespace
+   URI SETS.  The composition on concrete graphs is decided by the correspondence runs and the round trip through the public API. *)
 From Coq Require Import String Ascii List Bool Arith NArith ZArith.
-Require Import PyStr PyInt Sexp Xml M_C09 T_C09 M_C08 M_C08d T_C08 Ns Table M_Parse T_Parse M_Write T_Write XmlL M_ParseText M_WriteText T_WriteText T_ReadWritten T_Write2 T_C05 T_C05r T_ParseAttrs T_C05n T_C05a.
+Require Import PyStr PyInt Sexp Xml M_C09 T_C09 M_C08 M_C08d T_C08 Ns Table M_Parse T_Parse M_Write T_Write XmlL M_ParseText M_WriteText T_WriteText T_ReadWritten T_Write2 T_C05 T_C05r T_ParseAttrs T_C05n T_C05a T_C05m.
 Import ListNotations.
 Open Scope char_scope.
 
@@ -177,6 +180,30 @@ Theorem C05_assembled_sound : forall E caller docs q, parse_files E caller docs 
     exists t, In t refs /\ touches p k refs t = true /\ same_triple p (p_namespaces q) t t'.
 Proof. exact refs_assembled_sound. Qed.
 
+(* ---- the models (T_C05m.v): the document written for U, parsed in any context, reports exactly one model: U's, with the version of the graph's
+   model (or the new version asked for, or "1.0.0" when the graph's model has none - the recorded finding), the caller's publication date, and
+   the required models with their URIs and versions; and that model is among the models of any parse that contains the written document ---- *)
+Theorem C05_models_roundtrip : forall E ns p w d k refs ns1 fo, str_index (wp_uri w) (p_namespaces p) = Some k -> use_refs p w (Z.of_nat k) = Ok refs ->
+  write_doc p w = Ok d -> parse_file E ns d = Ok (ns1, fo) ->
+  exists u1 rest, d_uris d = Some (u1 :: rest) /\ fo_models fo = [reparsed_model p w u1].
+Proof. exact models_roundtrip. Qed.
+Theorem C05_models_assembled : forall E caller docs q, parse_files E caller docs = Ok q ->
+  forall p w d k refs, In d (kept caller docs) -> str_index (wp_uri w) (p_namespaces p) = Some k -> use_refs p w (Z.of_nat k) = Ok refs ->
+  write_doc p w = Ok d -> exists u1 rest, d_uris d = Some (u1 :: rest) /\ In (reparsed_model p w u1) (p_models q).
+Proof. exact models_assembled. Qed.
+Theorem C05_model_version_kept : forall p w u m v, model_of_uri p u = Some m -> mo_version m = Some v -> wp_newver w = None ->
+  mo_version (reparsed_model p w u) = Some v.
+Proof. exact reparsed_model_version. Qed.
+Theorem C05_model_new_version : forall p w u v, wp_newver w = Some v -> mo_version (reparsed_model p w u) = Some v.
+Proof. exact reparsed_model_newver. Qed.
+Theorem C05_model_required_kept : forall p w u m, model_of_uri p u = Some m ->
+  map (fun rq => (fst (fst rq), snd rq)) (mo_required (reparsed_model p w u)) = map (fun rq => (Some (ostr_none (fst (fst rq))), snd rq)) (mo_required m).
+Proof. exact reparsed_model_required. Qed.
+(* the recorded finding 'model-version-defaulted' is a theorem about the model of the code: the full statement fails for a model without Version *)
+Theorem C05_model_version_defaulted_refuted : forall p w u m, model_of_uri p u = Some m -> mo_version m = None -> wp_newver w = None ->
+  mo_version (reparsed_model p w u) = Some (lit "1.0.0").
+Proof. exact reparsed_model_version_defaulted. Qed.
+
 Print Assumptions C05_identifier_text.
 Print Assumptions C05_index_translation.
 Print Assumptions C05_shared_references_merge.
@@ -203,3 +230,9 @@ Print Assumptions C05_row_symbolic_name.
 Print Assumptions C05_assembled_references.
 Print Assumptions C05_assembled_rows.
 Print Assumptions C05_assembled_sound.
+Print Assumptions C05_models_roundtrip.
+Print Assumptions C05_models_assembled.
+Print Assumptions C05_model_version_kept.
+Print Assumptions C05_model_new_version.
+Print Assumptions C05_model_required_kept.
+Print Assumptions C05_model_version_defaulted_refuted.
